@@ -4812,3 +4812,108 @@ def ws5(m, run, rule='WS5.views-agree-through-the-real-setters'):
             raise AnalysisError('%s: interpreter met an unsupported construct: %s' % (key, ex))
         ci = m.cls('NURBS', cname)
         run.ob(rule, key, why is None, 'the three views agree after every assignment, position by position' if why is None else why, 'geomdl/NURBS.py:%d in NURBS.%s' % (ci.node.lineno, cname))
+
+
+# ====================================================================================== C09: conversion through the real classes
+def cv4(m, run, rule='CV4.conversion-on-real-classes'):
+    """CV4: convert.bspline_to_nurbs / nurbs_to_bspline interpreted on shapes built by the classes' own constructors and setters (curve,
+    non-square surface, volume with three different sizes and degrees, knot vectors of order tokens, exact symbolic points, with and
+    without knot vector normalisation): the result is a new shape of the other family with the degrees, sizes and knot vectors of the
+    source direction by direction, the same normalisation setting, control point i = source point i (unit weights), and the source is left
+    as it was; a rational shape with one non-unit weight (2, or 1/2, at the first, a middle or the last point) is returned unconverted"""
+    from .skel import Sym, ModRef
+    from .poly import Poly
+    cases = (('Curve', (2,), (4,)), ('Surface', (2, 1), (3, 4)), ('Volume', (1, 2, 3), (2, 3, 5)))
+    for fname, smod, tmod in (('bspline_to_nurbs', 'BSpline', 'NURBS'), ('nurbs_to_bspline', 'NURBS', 'BSpline')):
+        fi = m.func('convert.' + fname)
+        for cname, degs, sizes in cases:
+            pdim = len(degs)
+            total = 1
+            for s_ in sizes:
+                total *= s_
+            suffix = [''] if pdim == 1 else ['_' + 'uvw'[d] for d in range(pdim)]
+            ranks = [[0] * (p + 1) + list(range(1, n - p)) + [n - p] * (p + 1) for p, n in zip(degs, sizes)]
+            from fractions import Fraction
+            for norm_kv, odd, wv in ((False, None, 1), (True, None, 1), (False, total // 2, 2), (False, total - 1, 2), (False, 0, Fraction(1, 2)), (False, total // 2, Fraction(1, 2))):
+                if odd is not None and smod != 'NURBS':
+                    continue
+                key = 'convert.%s :: %s.%s%s%s' % (fname, smod, cname, ', normalize_kv' if norm_kv else '', ', weight %d is %s' % (odd, wv) if odd is not None else '')
+                ab = dict(STD_ABSTRACTED)
+                ab[('knotvector', 'normalize')] = Py(lambda sk, node, kv, *a, **k: [Ord(x.rank) for x in kv], 'knotvector.normalize')
+                sk = SK(m, ab)
+                sk.exact = True
+                sk.construct = True
+                why = None
+
+                def setp(obj, name, value):
+                    fi_ = m.lookup(obj._cls, name, 'setters')
+                    if fi_ is None:
+                        raise AnalysisError('%s: no setter %s' % (key, name))
+                    sk.call(fi_, [obj, value], {})
+
+                def getp(obj, name):
+                    fi_ = m.lookup(obj._cls, name, 'getters')
+                    if fi_ is None:
+                        raise AnalysisError('%s: no getter %s' % (key, name))
+                    return sk.call(fi_, [obj], {})
+                try:
+                    src = sk.apply(('class', (smod, cname)), [], {'normalize_kv': norm_kv}, None)
+                    for d in range(pdim):
+                        setp(src, 'degree' + suffix[d], degs[d])
+                    P = [[Poly.atom('P%d_%d' % (i, c)) for c in range(3)] for i in range(total)]
+                    rows = [[Sym(x) for x in r] + ([wv if i == odd else 1] if smod == 'NURBS' else []) for i, r in enumerate(P)]
+                    if smod == 'NURBS' and odd is not None:
+                        rows[odd] = [Sym(P[odd][c] * wv) for c in range(3)] + [wv]
+                    sk.call(m.lookup(src._cls, 'set_ctrlpts', 'methods'), [src, rows] + (list(sizes) if pdim > 1 else []), {})
+                    for d in range(pdim):
+                        setp(src, 'knotvector' + suffix[d], [Ord(r) for r in ranks[d]])
+                    before = (list(src._a['_degree']), list(src._a['_control_points_size']), [[k.rank for k in kv] for kv in src._a['_knot_vector']],
+                              [list(r) for r in src._a['_control_points']])
+                    out = sk.call(fi, [src], {})
+                    after = (list(src._a['_degree']), list(src._a['_control_points_size']), [[getattr(k, 'rank', None) for k in kv] for kv in src._a['_knot_vector']],
+                             [list(r) for r in src._a['_control_points']])
+                    if before[:3] != after[:3] or len(before[3]) != len(after[3]) or any(x is not y for r1, r2 in zip(before[3], after[3]) for x, y in zip(r1, r2)):
+                        why = 'the source shape is modified by the conversion'
+                    elif odd is not None:
+                        if out is not src:
+                            why = 'a rational shape whose weight %d is %s (all others 1) is converted: its weights are dropped' % (odd, wv)
+                    elif not isinstance(out, Bag) or out is src or out._cls != (tmod, cname):
+                        why = 'the result is not a new %s.%s' % (tmod, cname)
+                    else:
+                        b = out._a
+                        if list(b.get('_degree', [])) != list(degs):
+                            why = 'the degrees of the result are %s, the source has %s' % (list(b.get('_degree', [])), list(degs))
+                        elif list(b.get('_control_points_size', [])) != list(sizes):
+                            why = 'the sizes of the result are %s, the source has %s' % (list(b.get('_control_points_size', [])), list(sizes))
+                        elif [[getattr(k, 'rank', None) for k in kv] for kv in b.get('_knot_vector', [])] != ranks:
+                            why = 'the knot vectors of the result are not those of the source, direction by direction'
+                        elif b.get('_kv_normalize') is not norm_kv:
+                            why = 'the result is built with normalize_kv=%r, the source with %r: its knot vectors are (not) re-normalised and it no longer evaluates at the parameters of the source' % (b.get('_kv_normalize'), norm_kv)
+                        else:
+                            cp = getp(out, 'ctrlpts')
+                            if not isinstance(cp, (list, tuple)) or len(cp) != total:
+                                why = 'the result has %r control points, the source %d' % (len(cp) if isinstance(cp, (list, tuple)) else cp, total)
+                            for i in range(total):
+                                if why:
+                                    break
+                                if len(cp[i]) != 3:
+                                    why = 'control point %d of the result has %d coordinates' % (i, len(cp[i]))
+                                for c in range(3):
+                                    if why:
+                                        break
+                                    s = _as_sym(cp[i][c])
+                                    if s is None or not s.same(Sym(P[i][c])):
+                                        why = 'control point %d coordinate %d of the result is %r, the source has %r' % (i, c, cp[i][c], P[i][c])
+                            if why is None and tmod == 'NURBS':
+                                ww = getp(out, 'weights')
+                                for i in range(total):
+                                    s = _as_sym(ww[i]) if isinstance(ww, (list, tuple)) and len(ww) > i else None
+                                    if s is None or not s.same(Sym(Poly.const(1))):
+                                        why = 'weight %d of the converted shape is %r, expected 1' % (i, ww[i] if isinstance(ww, (list, tuple)) and len(ww) > i else ww)
+                                        break
+                except Violation as v:
+                    why = '%s %s' % (v.msg, v.where())
+                except Unsupported as ex:
+                    raise AnalysisError('%s: interpreter met an unsupported construct: %s' % (key, ex))
+                run.ob(rule, key, why is None, ('returned unconverted' if odd is not None else 'a new %s.%s with the definition of the source, direction by direction' % (tmod, cname)) if why is None else why,
+                       'geomdl/convert.py:%d in %s' % (fi.node.lineno, fi.key))
